@@ -204,9 +204,11 @@ def deleteLoop : Nat → Heap → Nat → Nat → Node → ListRes (Nat × Node)
       | some b => if head = node then .ok (head, prev) else deleteLoop fuel h b node hn
 
 /-- slist.go `Delete(node)` -/
-def delete (h : Heap) (node : Option Nat) : ListRes (Heap × Ans) := do
-  let a ← ListRes.deref node                        -- node.Value
-  let nd ← load h a
+def delete (h : Heap) (node : Option Nat) : ListRes (Heap × Ans) :=
+  match node with
+  | none => pure (h, .err)                          -- if node == nil { return error }
+  | some a => do
+  let nd ← load h a                                 -- node.Value
   let (h1, r) ← find h nd.val
   match r with
   | none => pure (h1, .err)
@@ -231,30 +233,27 @@ def delete (h : Heap) (node : Option Nat) : ListRes (Heap × Ans) := do
         let _ ← load h1 t
         pure (h1.set t sn, .ok)                     -- *prev.next = *head.next
 
-/-- the `for { fn(l.Value); if head.next == nil { break }; l.SingleNode = *head.next }` loop -/
-def eachLoop : Nat → Heap → ListRes (Heap × List Int)
-  | 0, _ => .hang
-  | fuel + 1, h =>
-    match h[0]? with
-    | none => .stuck
-    | some hd =>
-      match hd.next with
-      | none => .ok (h, [hd.val])
-      | some b =>
-        match h[b]? with
-        | none => .stuck
-        | some bn =>
-          match eachLoop fuel (h.set 0 bn) with
-          | .ok (h', vs) => .ok (h', hd.val :: vs)
-          | .panic => .panic
-          | .hang => .hang
-          | .stuck => .stuck
+/-- the loop `for node := &l.SingleNode; node != nil; node = node.next { fn(node.Value) }` (a walk with a local
+pointer: the store is not written) -/
+def eachLoop : Nat → Heap → Option Nat → ListRes (List Int)
+  | 0, _, _ => .hang
+  | fuel + 1, h, n =>
+    match n with
+    | none => .ok []
+    | some a =>
+      match h[a]? with
+      | none => .stuck
+      | some nd =>
+        match eachLoop fuel h nd.next with
+        | .ok vs => .ok (nd.val :: vs)
+        | .panic => .panic
+        | .hang => .hang
+        | .stuck => .stuck
 
-/-- slist.go `Each` with the logging callback: the values passed to `fn`, in order. -/
+/-- slist.go `Each` with the logging callback: the values passed to `fn`, in order (the store is returned unchanged). -/
 def each (h : Heap) : ListRes (Heap × List Int) := do
-  let node ← load h 0                               -- node := l.SingleNode
-  let (h', vs) ← eachLoop (h.length + 1) h
-  pure (h'.set 0 node, vs)                          -- l.SingleNode = node
+  let vs ← eachLoop (h.length + 1) h (some 0)
+  pure (h, vs)
 
 /-- The methods `SList` has (it has no `InsertBefore`, `First`, `Last`). -/
 def supported : Op → Bool
